@@ -134,7 +134,7 @@ def ofStatuses (t : Node) : Sexp :=
 
 def ofRes : Res → Sexp
   | .err e => .list [.atom "error", .atom e]
-  | .none => .atom "none"
+  | .none => .list [.str ""]      -- `fgen` returns `visit(ir) or ''`
   | .some ls => .list (ls.map .str)
 
 def step : Sexp → Option Sexp
